@@ -870,7 +870,17 @@ func (p *Parser) inferExprType(mod *sysl.Module,
 }
 
 func (p *Parser) inferTypes(mod *sysl.Module, appName string) {
-	for viewName, view := range mod.Apps[appName].Views {
+	// Views are visited in name order: each view numbers its anonymous types from
+	// zero, so views of one application can define the same AnonType_n__ and the
+	// last one visited wins — map order would make the model differ between runs.
+	views := mod.Apps[appName].Views
+	viewNames := make([]string, 0, len(views))
+	for viewName := range views {
+		viewNames = append(viewNames, viewName)
+	}
+	sort.Strings(viewNames)
+	for _, viewName := range viewNames {
+		view := views[viewName]
 		if syslutil.HasPattern(view.Attrs, "abstract") {
 			continue
 		}
